@@ -2006,6 +2006,33 @@ func (t *FnTrans) typeAssert(x *ssa.TypeAssert) {
 }
 
 func (t *FnTrans) panicInstr(x *ssa.Panic) {
+	if t.ct != nil && t.ct.Opts["panic-unchanged"] != "" {
+		// "panics instead of corrupting state": when the function panics, every location that existed at entry still
+		// holds its entry value (lock state aside: deferred unlocks run while the panic unwinds)
+		t.panicCount++
+		comps := make([]string, 0, len(t.cur.H))
+		for c := range t.cur.H {
+			comps = append(comps, c)
+		}
+		sort.Strings(comps)
+		a0 := q("$alloc@0")
+		for _, c := range comps {
+			if c == "$alloc" || strings.HasPrefix(c, "L.") {
+				continue
+			}
+			now := t.cur.H[c]
+			was, ok := t.entry.H[c]
+			if !ok || now == was {
+				continue
+			}
+			sc := t.compSort[c]
+			goal := eq(now, was)
+			if strings.HasPrefix(sc, "(Array Int ") {
+				goal = fmt.Sprintf("(forall ((fr$r Int)) %s)", implies(app("<", "fr$r", a0), eq(app("select", now, "fr$r"), app("select", was, "fr$r"))))
+			}
+			t.obligeNamed(fmt.Sprintf("panic.unchanged.%d.%s", t.panicCount, c), "frame", goal, "the function panics with component "+c+" unchanged (opt panic-unchanged)")
+		}
+	}
 	if t.ct != nil && t.ct.PanicsWhen != nil {
 		env := t.selfEnv(t.cur, t.entry)
 		t.oblige("panic", env.evalBool(t.ct.PanicsWhen.E), "panic only in a state satisfying the declared condition: "+t.ct.PanicsWhen.Text)
